@@ -406,3 +406,9 @@ Qed.
 (** the states of an AtToWriter are those of the section (o, 2^63-1-o) *)
 Lemma at_to_writer_sec_ok o : 0 <= o <= 2^63 - 1 -> sec_ok o (max_int64 - o).
 Proof. unfold sec_ok, max_int64. lia. Qed.
+
+(** * the example call sequence used by the non-vacuity examples of Properties/C18.v *)
+Definition ex_calls : list call :=
+  [CWrite [1;2;3]; CWrite [4;5;6;7;8]; CWrite [9]; CSeek (-2) 2; CWriteAt [10;11;12] 2;
+   CSeek 7 1; CSize].
+Definition ex_script : list resp := [(1, 2)].
